@@ -69,7 +69,9 @@ def cmd_check(prop, tier, seed):
         vio_out.append({"signature": h["sig"], "replay": path, "msg": h["hit"]["msg"]})
         rc = 1
     if len(violations) > 8:
-        print(f"  ... and {len(violations) - 8} further distinct violation signatures not minimised")
+        print(f"  ... and {len(violations) - 8} further distinct violation signatures not minimised:")
+        for h in violations[8:40]:
+            print(f"  - {h['sig']['oracle']} {json.dumps(h['sig']['features'], sort_keys=True)} :: {h['hit']['msg'][:160]}")
     for line in sorted(set(known_lines)):
         print(line)
     wall = time.time() - t0
